@@ -275,6 +275,13 @@ def run(chk, replay=None):
                 a0, v0 = st_attrs[0], thr[0]
                 near = sorted(pool[a0], key=lambda x: (abs(x - v0), x))[:4]
                 f[a0] = near[i % len(near)]
+            if not dedicated and i < 2 and region_kind in ('cart-flag', 'quadtree'):
+                # two events are always where the region's answer is the interesting one: in the flagged-out cell / on an edge
+                # whose tile is not part of the region (chance placement would make the check depend on the seed)
+                if region_kind == 'cart-flag':
+                    f['longitude'], f['latitude'] = [-117.0, -116.95][i], -33.05
+                else:
+                    f['longitude'], f['latitude'] = [(0.0, -20.0), (-45.0, 0.0)][i]
             inside = inside_fn(f['longitude'], f['latitude'])
             rows.append(('u%d' % (i + 1), f['origin_time'], f['latitude'], f['longitude'], f['depth'], f['magnitude']))
             cm = []
@@ -293,6 +300,8 @@ def run(chk, replay=None):
             first_dedicated = dedicated and not calls
             if first_dedicated:
                 k = ['one', 'list', 'stored', 'load'][t % 4]
+            if not dedicated and not calls and region_kind in ('cart-flag', 'quadtree') and t % 8 >= 4:
+                k = 'spatial'          # (... and every other such trace starts with the spatial filter)
             if k == 'load':
                 inplace = False
             idx = [rng.randrange(m) + 1] if k == 'one' else ([] if k == 'spatial' else [rng.randrange(m) + 1 for _ in range(rng.randint(1, 3))])
